@@ -13,8 +13,8 @@ CLAIMS = {
   note="Exhaustive only for the stated alphabets/MaxLen; wide integer types are bound through the two-scale embedding (DESIGN 2.2); float weights only with small-integer values (exact).",
   tech="TLA+ spec + TLC exhaustive model checking; TLC-generated behaviours replayed into the implementation; implementation traces validated against the spec", ref="DESIGN.md §5 C09"),
  "C10": dict(
-  text="The Law invariant (number of sampling targets mapped to index i equals weight i, in every reachable state of the C09 model, hence after any history) is model-checked by TLC; on the real type every replayed state has all its targets swept with scripted RNG words (ticket counts must equal the predicted weights), sample events in recorded traces must return SampleOutcome(sub,target), and float trees of adversarial shapes are validated against the rule valid => Ok(i), i<len, weight(i)>0, no panic.",
-  note="rand's word->target map is measured on a cloned stream (trusted base: rand 0.10.2). Float weights: only panic-freedom/zero-weight rule, not the law.",
+  text="The Law invariant (number of sampling targets mapped to index i equals weight i, in every reachable state of the C09 model, hence after any history) is model-checked by TLC; on the real type every replayed state has all its targets swept with scripted RNG words (ticket counts must equal the predicted weights), sample events in recorded traces must return SampleOutcome(sub,target), and float trees of adversarial shapes are validated against the rule valid => Ok(i), i<len, weight(i)>0, no panic. FLOAT weights, law: sample() consumes one word and the words returning index k form one interval of the word range; for 300 (thorough 5000) f32 and f64 trees per run - fresh and after update/push/pop histories, few-bit weights (no rounding anywhere) and full-mantissa weights - every change point is located by bisection and TraceFloatLaw.tla checks |len_k W - w_k 2^64| <= tol W 2^64 in exact integers (tol 2^-40 f64, 2^-19 f32), that the intervals partition the range and that a zero weight has an empty interval.",
+  note="rand's word->target map is measured on a cloned stream (trusted base: rand 0.10.2). Float weights: the law is decided for the sampled trees only (lengths 2..20, weights in [2^-8, 16)); the assertion failure and the root residue of float trees are known findings.",
   tech="TLA+ spec + TLC exhaustive model checking (ticket counting); scripted-RNG target sweeps in replayed states; trace validation", ref="DESIGN.md §5 C10"),
 }
 
